@@ -113,7 +113,8 @@ namespace xsimd
         template <class A, class T>
         XSIMD_INLINE batch_bool<T, A> is_odd(batch<T, A> const& self, requires_arch<generic>) noexcept
         {
-            return is_even(self - T(1.));
+            // self - 1 is not exact for large values (all of which are even integers)
+            return is_flint(self) && !is_even(self);
         }
 
         // isinf
